@@ -292,6 +292,30 @@ def gen_series(rng, tier, what, big=False):
     return sp
 
 
+def gen_many_events(rng, what='fir', positive=False):
+    """long recording, short response, MORE THAN 127 occurrences of one code (heavily overlapping): the
+    Gram matrix XᵀX has diagonal entries > 127 (a design matrix held in a narrow integer type would wrap)"""
+    L = rng.randint(2, 3)
+    codes = rng.sample(CODES, rng.randint(1, 2))
+    if positive:
+        codes = list(dict.fromkeys(abs(c) for c in codes))
+    off = rng.choice([0, 0, 1])
+    N = rng.randint(330, 520)
+    last = N - off - L
+    while True:
+        ev = [0] * N
+        for k in range(last + 1):
+            if rng.random() < 0.62:
+                ev[k] = codes[0] if rng.random() < 0.8 else rng.choice(codes)
+        if sum(1 for c in ev if c == codes[0]) > 140 and my_types(ev) == sorted(codes):
+            break
+    si, unit = rng.choice(SIS)
+    resp = [{str(c): [float(rng.randint(-9, 9) or 1) for _ in range(L)] for c in sorted(codes)}]
+    return {'kind': 'series', 'what': what, 'off': off, 'L': L, 'cb': False, 'zs': False, 'si': si, 'unit': unit, 'nch': 0,
+            'N': N, 'evch': 0, 'ev': ev, 'data': plant(ev, resp[0], L, off, N), 'resp': resp, 'planted': True,
+            'integer': True, 'evfloat': rng.random() < 0.3, 'many': True}
+
+
 def add_noise(rng, sp):
     sp = dict(sp)
     sp['data'] = [v + rng.uniform(-1, 1) for v in sp['data']]
@@ -385,6 +409,8 @@ def fixed_specs():
 def gen_specs(rng, tier):
     n = 120 if tier == 'quick' else 1500
     specs = list(fixed_specs())
+    for i in range(4 if tier == 'quick' else 40):
+        specs.append(gen_many_events(rng, positive=(i % 2 == 0)))
     for i in range(n):
         for what in ('fir', 'eta', 'ets', 'etdata'):
             sp = gen_series(rng, tier, what, big=(tier == 'thorough' and i % 10 == 0) or (tier == 'quick' and i % 30 == 29))
